@@ -93,6 +93,9 @@ type treeCase struct {
 	attached   map[string]*parsed // what the oracle knows to be attached (authentic versions)
 	resync     bool               // outside the model (rebuild path, snapshot / reduce, empty previous ids, key filter): oracle only from here on
 	keyFilter  bool               // tree built with BuildKeyFilterableObjectTree
+	recvStore  *faultyAclStorage
+	faults     int
+	dead       bool // the receiver ACL is unusable, stop this case
 	lastStatus string
 	keyIds     []string // read key ids the receiver can decrypt
 	exotic     bool     // generate snapshot changes and changes without previous ids
@@ -331,7 +334,7 @@ func (tc *treeCase) authentic(p *parsed, env map[string]*parsed) (bool, string) 
 	}
 	idx := tc.w.recIndex(p.aclHead, tc.recvK)
 	if idx < 0 {
-		return false, "cited ACL record is not known locally"
+		return false, "cited ACL record does not exist locally (not a stored and applied record of the receiver's log)"
 	}
 	if p.acc >= 1000 || !oracleCanWrite(tc.w.permAt(idx, p.acc)) {
 		return false, "identity had no write permission at the cited record"
@@ -393,7 +396,13 @@ func (tc *treeCase) checkNew(stream string, before, after obs, delivered []*pars
 	for _, id := range ids {
 		c, ok := cand[id]
 		if !ok {
-			tc.violate(stream, fmt.Sprintf("change %d became part of the tree but no delivered raw change has that id as the hash of its bytes", tc.chNum(id)))
+			what := "no delivered raw change carries that id"
+			for _, p := range delivered {
+				if p.id == id {
+					what = fmt.Sprintf("its id is not THE content id of its bytes (%s; canonical id is %d)", p.label, tc.chNum(oracleCid(p.body)))
+				}
+			}
+			tc.violate(stream, fmt.Sprintf("change %d became part of the tree although %s", tc.chNum(id), what))
 			continue
 		}
 		if ok, why := tc.authentic(c, env); !ok {
@@ -646,6 +655,50 @@ func (tc *treeCase) reopen(tag string) bool {
 	return true
 }
 
+// aclFault offers the receiver the NEXT record of the log while its record storage refuses the
+// write, then delivers a change citing exactly that record (preferably by an account whose
+// permission that record changes). The record was refused, is not stored and not applied: it does
+// not exist locally, so the change must be refused too.
+func (tc *treeCase) aclFault() {
+	if tc.recvK >= len(tc.w.recs) || tc.recvStore == nil || tc.tree == nil {
+		return
+	}
+	rec := tc.w.recs[tc.recvK]
+	tc.recvStore.failAdd = true
+	tc.recv.Lock()
+	err := tc.recv.AddRawRecord(rec)
+	tc.recv.Unlock()
+	tc.recvStore.failAdd = false
+	if err == nil {
+		tc.r.Count("acl.fault.not-reported")
+		return
+	}
+	if h, _ := tc.recvStore.Head(context.Background()); h != tc.w.recs[tc.recvK-1].Id {
+		tc.r.Fatal("fault-injecting ACL storage moved its head")
+	}
+	if got := tc.ask(fmt.Sprintf("aclfault %d", tc.recvK)); got != "ok" {
+		tc.r.Fatal("model rejected aclfault: " + got)
+	}
+	tc.r.Count("acl.fault")
+	tc.faults++
+	author := tc.pickAuthor()
+	for _, e := range tc.w.effs[tc.recvK] {
+		if a := tc.w.accts[e.acc]; a.keys != nil && tc.r.Chance(70) {
+			author = a
+		}
+	}
+	if tc.r.Chance(30) {
+		author = tc.w.byName["o"]
+	}
+	raw := tc.buildChange(author, rec.Id, tc.tree.Heads(), tc.rootId)
+	raw.label = "valid.cites-unstored-record"
+	tc.add([]*rawCh{raw}, "after-acl-fault")
+	if !tc.keyFilter && tc.r.Chance(40) {
+		// the local path cites the list's head: it must still be the stored head
+		tc.content(tc.w.byName["o"], false)
+	}
+}
+
 // extendAcl gives the receiver the rest of the record log.
 func (tc *treeCase) extendAcl(k int) {
 	if k <= tc.recvK {
@@ -655,7 +708,14 @@ func (tc *treeCase) extendAcl(k int) {
 	err := tc.recv.AddRawRecords(tc.w.recs[tc.recvK:k])
 	tc.recv.Unlock()
 	if err != nil {
-		tc.r.Fatal("receiver AddRawRecords: " + err.Error())
+		if tc.faults == 0 {
+			tc.r.Fatal("receiver AddRawRecords: " + err.Error())
+		}
+		// after an injected storage fault the list no longer takes the rest of the log: the receiver
+		// is stuck (ACL atomicity is C03's business); this tree cannot be continued
+		tc.r.Count("acl.extend-failed-after-fault")
+		tc.dead = true
+		return
 	}
 	tc.recvK = k
 	if got := tc.ask(tc.aclLine()); got != "ok" {
